@@ -67,7 +67,10 @@ def run(prog, rep, tier):
         rep.bad("WRITESET.coefs", fwhere(f), "coefficients must be written exactly once (at S); found %d stores" % len(stores))
     else:
         st = stores[0]
-        ok = st.base == zeros and M.idx_key(st.idx) == PXs and st.aug is None
+        MUs = ("self", "mean")
+        base_ok = zeros_of(st.base, shapes=[("self", "p"), ("ext", "len", (MUs,), ()), ("attr", MUs, "shape"), ("sub", ("attr", MUs, "shape"), ("const", 0)),
+                                            ("ext", "len", (("self", "covariance"),), ())], like=[MUs])
+        ok = base_ok and M.idx_key(st.idx) == PXs and st.aug is None
         rep.check("WRITESET.coefs", ok, fwhere(f, st.node), "coefficients = zeros(p) written only at the regressors S",
                   "coefficient vector is not `zeros(p)` written at S only (base %s, index %s)" % (fmt(st.base), fmt(st.idx)))
         ref = mul(rinv(rB(C, PXs, PXs)), rB(C, SY, PXs))
@@ -97,7 +100,7 @@ def run(prog, rep, tier):
         raise Inconclusive("regress: expected a single `return (coefs, intercept)`", f.node)
     coefs_t, icpt_t = rets[0].value[1]
     has_store = any(x == stores[0].base or (isinstance(x, tuple) and x[0] == "store") for x in walk(coefs_t)) if stores else False
-    rep.check("RETURN.coefs", has_store and any(isinstance(x, tuple) and x[:2] == ("store", zeros) for x in walk(coefs_t)), fwhere(f, rets[0].node),
+    rep.check("RETURN.coefs", has_store and any(isinstance(x, tuple) and x[0] == "store" and stores and x[1] == stores[0].base for x in walk(coefs_t)), fwhere(f, rets[0].node),
               "first result is the coefficient vector", "first result is not the written coefficient vector")
     Mi = MNF(symmetric=[C], scalars=[Py], vectors=[coefs_t, MU])
     try:
